@@ -127,6 +127,8 @@ pub enum Ev {
     /// one atomic chunk appended to a port; `call` identifies the make-printer invocation (0 =
     /// not inside one)
     Write { thread: usize, file: usize, port: usize, chars: String, call: u64 },
+    /// an unsynchronised access to a port's state (display chunk, flush, close) by this thread
+    PortOp { thread: usize, port: usize },
     /// a stub-owned printer (make-printer) was invoked with this string
     PrinterCall { thread: usize, file: usize, call: u64, port: usize, text: String, term: Option<char> },
     /// runtime printing outside emitted printers (print-relative-path, print-file-fid)
@@ -159,13 +161,21 @@ pub struct Knobs {
     pub chunk_seed: u64,
     /// honour lipe-scan-break (off in the reference run, which wants every file's records)
     pub honour_break: bool,
+    /// None: a display reaches the destination at once (unbuffered / line-buffered port).
+    /// Some(cap): ports are block-buffered with this capacity (in characters), as Guile's are
+    /// on pipes and files: a display is an unsynchronised read-modify-write of the port's
+    /// buffer; the buffer reaches the destination when it is full, on force-output, on
+    /// close-port and at the end of the program.
+    pub buffer_cap: Option<usize>,
+    /// a flush resets the buffer cursor before (true) or after (false) it hands the data over
+    pub flush_resets_first: bool,
 }
 
 pub struct Runtime {
     pub concurrent: bool,
     pub files: Vec<FileRec>,
     pub knobs: Knobs,
-    ports: StdMutex<Vec<(String, bool)>>, // (destination, open)
+    ports: StdMutex<Vec<PortSt>>,
     mutexes: StdMutex<Vec<Arc<MutexCell>>>,
     pub log: StdMutex<Vec<Ev>>,
     stop: AtomicBool,
@@ -174,6 +184,16 @@ pub struct Runtime {
     pub contended: AtomicU64,
     /// names that are the target of a set! somewhere in the program: their reads can race
     assigned: StdMutex<std::collections::BTreeSet<String>>,
+}
+
+/// One buffered character with its provenance: (char, file, printer call, writing thread).
+type BufChar = (char, usize, u64, usize);
+
+pub struct PortSt {
+    dest: String,
+    open: bool,
+    buf: Vec<BufChar>,
+    cursor: usize,
 }
 
 pub struct Ctx {
@@ -339,11 +359,69 @@ impl Runtime {
     }
 
     pub fn destination(&self, port: usize) -> String {
-        self.ports.lock().unwrap().get(port).map(|p| p.0.clone()).unwrap_or_default()
+        self.ports.lock().unwrap().get(port).map(|p| p.dest.clone()).unwrap_or_default()
     }
 
     pub fn destinations(&self) -> Vec<String> {
-        self.ports.lock().unwrap().iter().map(|p| p.0.clone()).collect()
+        self.ports.lock().unwrap().iter().map(|p| p.dest.clone()).collect()
+    }
+
+    /// Hand `data` over to the destination: one Write event per run of equal provenance.
+    fn emit(&self, port: usize, data: &[BufChar]) {
+        let mut i = 0;
+        while i < data.len() {
+            let (_, file, call, thread) = data[i];
+            let mut j = i;
+            while j < data.len() && (data[j].1, data[j].2, data[j].3) == (file, call, thread) {
+                j += 1;
+            }
+            let chars: String = data[i..j].iter().map(|c| c.0).collect();
+            self.ev(Ev::Write { thread, file, port, chars, call });
+            i = j;
+        }
+    }
+
+    /// Flush a buffered port: read the cursor, hand the data over, reset the cursor — three
+    /// separate steps, none of them synchronised by the port itself.
+    fn flush_port(&self, ctx: &Ctx, port: usize) {
+        if self.knobs.buffer_cap.is_none() {
+            self.point();
+            return;
+        }
+        self.point();
+        self.ev(Ev::PortOp { thread: ctx.thread, port });
+        let n = match self.ports.lock().unwrap().get(port) {
+            Some(p) => p.cursor,
+            None => return,
+        };
+        self.point();
+        let take = |n: usize| -> Vec<BufChar> {
+            let ports = self.ports.lock().unwrap();
+            let p = &ports[port];
+            p.buf[..n.min(p.buf.len())].to_vec()
+        };
+        if self.knobs.flush_resets_first {
+            let data = take(n);
+            self.ports.lock().unwrap()[port].cursor = 0;
+            self.point();
+            self.emit(port, &data);
+        } else {
+            let data = take(n);
+            self.emit(port, &data);
+            self.point();
+            self.ports.lock().unwrap()[port].cursor = 0;
+        }
+    }
+
+    /// End of the program: whatever is still buffered reaches its destination.
+    fn flush_all(&self, ctx: &Ctx) {
+        let n = self.ports.lock().unwrap().len();
+        for port in 0..n {
+            let open = self.ports.lock().unwrap()[port].open;
+            if open {
+                self.flush_port(ctx, port);
+            }
+        }
     }
 
     fn file<'a>(&'a self, ctx: &Ctx, what: &str) -> R<&'a FileRec> {
@@ -355,7 +433,7 @@ impl Runtime {
             let ports = self.ports.lock().unwrap();
             match ports.get(port) {
                 None => return runtime("display: no such port"),
-                Some((_, false)) => return runtime("display: port is closed"),
+                Some(p) if !p.open => return runtime("display: port is closed"),
                 _ => {}
             }
         }
@@ -377,8 +455,34 @@ impl Runtime {
         let mut start = 0;
         for cut in cuts {
             self.point();
-            let chunk: String = chars[start..cut].iter().collect();
-            self.ev(Ev::Write { thread: ctx.thread, file: ctx.file, port, chars: chunk, call: ctx.call });
+            self.ev(Ev::PortOp { thread: ctx.thread, port });
+            match self.knobs.buffer_cap {
+                None => {
+                    let chunk: String = chars[start..cut].iter().collect();
+                    self.ev(Ev::Write { thread: ctx.thread, file: ctx.file, port, chars: chunk, call: ctx.call });
+                }
+                Some(cap) => {
+                    // read the cursor, then (later) store the characters there and advance it
+                    let cur = self.ports.lock().unwrap()[port].cursor;
+                    self.point();
+                    let full = {
+                        let mut ports = self.ports.lock().unwrap();
+                        let p = &mut ports[port];
+                        let n = cut - start;
+                        if p.buf.len() < cur + n {
+                            p.buf.resize(cur + n, ('\u{0}', NO_FILE, 0, 0));
+                        }
+                        for (i, ch) in chars[start..cut].iter().enumerate() {
+                            p.buf[cur + i] = (*ch, ctx.file, ctx.call, ctx.thread);
+                        }
+                        p.cursor = cur + n;
+                        p.cursor >= cap
+                    };
+                    if full {
+                        self.flush_port(ctx, port);
+                    }
+                }
+            }
             start = cut;
         }
         if chars.is_empty() {
@@ -970,7 +1074,7 @@ impl Runtime {
                     "stdout".to_string()
                 };
                 let mut ports = self.ports.lock().unwrap();
-                ports.push((dest.clone(), true));
+                ports.push(PortSt { dest: dest.clone(), open: true, buf: vec![], cursor: 0 });
                 let id = ports.len() - 1;
                 drop(ports);
                 self.ev(Ev::OpenPort { port: id, dest });
@@ -978,8 +1082,9 @@ impl Runtime {
             }
             "close-port" => match args.first() {
                 Some(Val::Port(p)) => {
+                    self.flush_port(ctx, *p);
                     if let Some(e) = self.ports.lock().unwrap().get_mut(*p) {
-                        e.1 = false;
+                        e.open = false;
                     }
                     self.ev(Ev::ClosePort { port: *p });
                     Ok(Val::Unspec)
@@ -1116,7 +1221,20 @@ impl Runtime {
             "1+" => Ok(Val::Int(as_int(args.first().unwrap_or(&Val::Unspec), name)? + 1)),
             "1-" => Ok(Val::Int(as_int(args.first().unwrap_or(&Val::Unspec), name)? - 1)),
             "force-output" | "flush-all-ports" => {
-                self.point();
+                match args.first() {
+                    Some(Val::Port(p)) => self.flush_port(ctx, *p),
+                    Some(other) => return runtime(format!("{name}: not a port: {other:?}")),
+                    None => {
+                        // (force-output) = the current output port; flush-all-ports = every port
+                        let ports: Vec<usize> = {
+                            let ps = self.ports.lock().unwrap();
+                            (0..ps.len()).filter(|i| ps[*i].open && (name == "flush-all-ports" || ps[*i].dest == "stdout")).collect()
+                        };
+                        for p in ports {
+                            self.flush_port(ctx, p);
+                        }
+                    }
+                }
                 Ok(Val::Unspec)
             }
             "lipe-scan-break" => {
@@ -1197,7 +1315,9 @@ impl Runtime {
             }
         }
         let mut ctx = Ctx::new(MAIN_THREAD);
-        self.eval_body(forms, &None, &mut ctx)?;
+        let r = self.eval_body(forms, &None, &mut ctx);
+        self.flush_all(&ctx);
+        r?;
         Ok(())
     }
 }
